@@ -199,10 +199,10 @@ theorem access_ok {Γ : TyEnv} {P : List Expr} {σ : State V} (h : Inv Γ P σ) 
     obtain ⟨c, hc⟩ := cellOf_ok hty.inBuf hvo
     exact ⟨v, is, c, hv, his, hc⟩
 
-theorem readObs_append (Γ : TyEnv) (P : List Expr) : ∀ (a b : List (Sym × List Expr)),
+theorem readObs_append (Γ : TyEnv) (P : List Expr) : ∀ (a b : List (Bool × Sym × List Expr)),
     readObs Γ P (a ++ b) = readObs Γ P a ++ readObs Γ P b
   | [], b => rfl
-  | (x, idx) :: r, b => by simp [readObs, readObs_append Γ P r b]
+  | (f, x, idx) :: r, b => by simp [readObs, readObs_append Γ P r b]
 
 section
 variable [DataAlg V] (ext : String → List V → V)
@@ -214,39 +214,39 @@ theorem dataOp_noBad (op : BinOp) (x y : Option V) : NoBad (dataOp op x y) := by
 mutual
 /-- evaluating a right-hand side whose reads are all checked trips no monitor -/
 theorem evalD_noBad {Γ : TyEnv} {P : List Expr} {σ : State V} (h : Inv Γ P σ) :
-    ∀ (e : Expr), ObsOk (readObs Γ P (readsE e)) → NoBad (evalD ext σ e)
-  | .read x idx, ho => by
+    ∀ (b : Bool) (e : Expr), ObsOk (readObs Γ P (readsE b e)) → NoBad (evalD ext σ e)
+  | b, .read x idx, ho => by
     simp only [readsE, readObs, List.append_nil] at ho
     obtain ⟨v, is, c, hv, his, hc⟩ := access_ok h ho
     simp only [evalD, hv, his, hc, bind, Except.bind]
     exact NoBad.ok _
-  | .lit (.data n d), _ => by simp only [evalD]; exact NoBad.ok _
-  | .lit (.int n), _ => by simp only [evalD]; exact NoBad.ok _
-  | .lit (.bool _), _ => by intro e he; simp only [evalD] at he; cases he; rfl
-  | .usub a, ho => by
+  | _, .lit (.data n d), _ => by simp only [evalD]; exact NoBad.ok _
+  | _, .lit (.int n), _ => by simp only [evalD]; exact NoBad.ok _
+  | _, .lit (.bool _), _ => by intro e he; simp only [evalD] at he; cases he; rfl
+  | b, .usub a, ho => by
     simp only [evalD]
-    exact NoBad.bind (evalD_noBad h a (by simpa [readsE] using ho)) (fun _ _ => NoBad.ok _)
-  | .binop op a b, ho => by
+    exact NoBad.bind (evalD_noBad h b a (by simpa [readsE] using ho)) (fun _ _ => NoBad.ok _)
+  | b, .binop op a c, ho => by
     simp only [readsE, readObs_append] at ho
     simp only [evalD]
-    exact NoBad.bind (evalD_noBad h a ho.append.1) (fun _ _ =>
-      NoBad.bind (evalD_noBad h b ho.append.2) (fun _ _ => dataOp_noBad _ _ _))
-  | .extern f args, ho => by
+    exact NoBad.bind (evalD_noBad h b a ho.append.1) (fun _ _ =>
+      NoBad.bind (evalD_noBad h b c ho.append.2) (fun _ _ => dataOp_noBad _ _ _))
+  | _, .extern f args, ho => by
     simp only [evalD]
-    exact NoBad.bind (evalDs_noBad h args (by simpa [readsE] using ho)) (fun _ _ => NoBad.ok _)
-  | .readcfg c f, _ => by
+    exact NoBad.bind (evalDs_noBad h true args (by simpa [readsE] using ho)) (fun _ _ => NoBad.ok _)
+  | _, .readcfg c f, _ => by
     intro e he; simp only [evalD] at he
     split at he <;> cases he <;> rfl
-  | .win _ _, _ => by intro e he; simp only [evalD] at he; cases he; rfl
-  | .stride _ _, _ => by intro e he; simp only [evalD] at he; cases he; rfl
+  | _, .win _ _, _ => by intro e he; simp only [evalD] at he; cases he; rfl
+  | _, .stride _ _, _ => by intro e he; simp only [evalD] at he; cases he; rfl
 theorem evalDs_noBad {Γ : TyEnv} {P : List Expr} {σ : State V} (h : Inv Γ P σ) :
-    ∀ (es : List Expr), ObsOk (readObs Γ P (readsEs es)) → NoBad (evalDs ext σ es)
-  | [], _ => by simp only [evalDs]; exact NoBad.ok _
-  | e :: r, ho => by
+    ∀ (b : Bool) (es : List Expr), ObsOk (readObs Γ P (readsEs b es)) → NoBad (evalDs ext σ es)
+  | _, [], _ => by simp only [evalDs]; exact NoBad.ok _
+  | b, e :: r, ho => by
     simp only [readsEs, readObs_append] at ho
     simp only [evalDs]
-    exact NoBad.bind (evalD_noBad h e ho.append.1) (fun _ _ =>
-      NoBad.bind (evalDs_noBad h r ho.append.2) (fun _ _ => NoBad.ok _))
+    exact NoBad.bind (evalD_noBad h b e ho.append.1) (fun _ _ =>
+      NoBad.bind (evalDs_noBad h b r ho.append.2) (fun _ _ => NoBad.ok _))
 end
 
 end
